@@ -1,4 +1,5 @@
 """C13 - duplicate and blank mnemonics: unique session names, originals preserved."""
+import json
 import random
 
 from harness import core, section, tlc
@@ -32,8 +33,14 @@ def run(ctx, prefix=PREFIX):
     rnames, rkeys = ((["A", ""], ["A", "A:1"]) if ctx.tier != "thorough" else (["A", "", "A:1"], ["A", "A:1", "A:2", "UNKNOWN", "Z"]))
     rcfg = ("SPECIFICATION Spec2\nCONSTANTS\n  Names = %s\n  KeyPool = %s\n  MaxLen = 3\n  MaxDepth = 0\n  Emit = FALSE\n  RenumberBy = \"%s\"\n"
             "PROPERTY Refines2\n%sVIEW View2\nCHECK_DEADLOCK FALSE\n")
-    ctx.model_check("SectionReuse", rcfg % (tset(rnames), tset(rkeys), "useful", "INVARIANT DistinctOrKnown\nINVARIANT ResolvesInv\n"),
-                    label="SectionReuse refines Section (items put back after deletion; names=%s)" % rnames, workers=16, timeout=3000)
+    rr = ctx.model_check("SectionReuse", rcfg.replace("Emit = FALSE", "Emit = TRUE").replace("PROPERTY Refines2", "ACTION_CONSTRAINT EmitBack\nPROPERTY Refines2")
+                         % (tset(rnames), tset(rkeys), "useful", "INVARIANT DistinctOrKnown\nINVARIANT ResolvesInv\n"),
+                         label="SectionReuse refines Section (items put back after deletion; names=%s)" % rnames, workers=16, timeout=3000)
+    putbacks = rr.printed_json()
+    putbacks.sort(key=lambda ed: json.dumps(ed, sort_keys=True))
+    if not putbacks:
+        raise tlc.MachineryError("SectionReuse printed no put-back transition")
+    ctx.extra["model_putback_edges"] = len(putbacks)
     rs = tlc.run("SectionReuse", rcfg % (tset(["A", ""]), tset(["A", "A:1"]), "session", ""), workers=4, timeout=600, allow_violation=True)
     if rs.violation != "Refines2":
         raise tlc.MachineryError("SectionReuse with RenumberBy = session does not violate Refines2 (%r): the model does not react" % rs.violation)
@@ -51,6 +58,10 @@ def run(ctx, prefix=PREFIX):
     all_traces, all_meta = [], []
     for kind in ("header", "curve"):
         t, m = section.replay_edges(ctx, edges, p["keys"], kind=kind, limit=p["limit"], rng=rng)
+        all_traces += t
+        all_meta += m
+    for kind in ("header", "curve"):
+        t, m = section.replay_putbacks(ctx, putbacks, rkeys, kind=kind, limit=None if ctx.tier == "thorough" and len(putbacks) < 60000 else 2500, rng=rng)
         all_traces += t
         all_meta += m
     big = ["A", "a", "B", "b", "", " ", "A:1", "a:1", "A:2", "1", "UNKNOWN", "UNKNOWN:1"]
